@@ -90,6 +90,9 @@ type Op struct {
 type Case struct {
 	EPs []EPc `json:"eps"`
 	Ops []Op  `json:"ops"`
+	// CutProbe: before the recovery phase, one forced check round against refusing backends is
+	// cut short (its context ends during the client's retry pause), 31 s after the last event
+	CutProbe bool `json:"cut_probe,omitempty"`
 }
 
 var outcomes = []string{"200", "200", "204", "404", "500", "503", "refuse", "net-timeout", "ctx-deadline"}
@@ -129,6 +132,7 @@ func genCase(t *rapid.T) Case {
 		for i, m := 0, rapid.IntRange(0, 3).Draw(t, "tail"); i < m; i++ {
 			c.Ops = append(c.Ops, Op{Kind: "tick"})
 		}
+		c.CutProbe = rapid.IntRange(0, 2).Draw(t, "cutprobe") == 0
 		return c
 	}
 	k := rapid.IntRange(4, 40).Draw(t, "nops")
@@ -150,6 +154,7 @@ func genCase(t *rapid.T) Case {
 		}
 		c.Ops = append(c.Ops, op)
 	}
+	c.CutProbe = rapid.IntRange(0, 2).Draw(t, "cutprobe") == 0
 	return c
 }
 
@@ -472,6 +477,20 @@ func runCase(c Case) []ev.Violation {
 		for i, r := range ref {
 			r.untilDue = time.Until(now[hosts[i]].NextCheckTime)
 		}
+	}
+	if c.CutProbe {
+		// a check round whose time budget runs out while probes are waiting to retry: whatever a
+		// breaker had handed out for such a probe (a half-open slot) must not be lost for good
+		for i := range ref {
+			cl.mu.Lock()
+			cl.outcome[hosts[i]] = "refuse"
+			cl.mu.Unlock()
+		}
+		shift(31 * time.Second)
+		cut, stop := context.WithTimeout(ctx, 40*time.Millisecond)
+		_ = hc.RunHealthCheck(cut, false)
+		stop()
+		rec.Class("history-with-cut-short-check-round")
 	}
 	// recovery promise: from wherever the history ended, make every endpoint answer 200 and let the
 	// scheduler tick; each must be probed for real and be healthy within four ticks (120 s)
